@@ -32,7 +32,9 @@ def main(tier_: str) -> int:
     out = Outcome('C04', tier_)
     out.assumptions = [
         '"every box\'s size field equals its encoded length" is judged on the encoded bytes (the size fields a reader sees), by the '
-        'independent walker; the in-memory size attribute is an internal and is not constrained',
+        'independent walker; the size attribute of the box objects is additionally checked after structural edits (insert, append, '
+        'remove, move) with boxes that already have a size - a box that was never encoded has none yet, and a field assignment '
+        'changes the attribute only at the next encode',
         'well-formed inputs are the repository\'s fixture files plus trees edited through the public API; field values strictly inside a '
         'width\'s range are sampled at boundary classes only',
     ]
@@ -242,6 +244,76 @@ def main(tier_: str) -> int:
             except Exception as err:      # noqa: BLE001
                 lines.append({'ev': 'edit', 'file': f.name, 'lazy': use_lazy, 'ops': ops, 'tops': [], 'total': -1, 'reparse_eq': 0, 'fields_ok': 0,
                               'err': f'{type(err).__name__}: {err}'[:160]})
+        # ---- the size a box object holds after structural edits (before anything is encoded) --------------------------
+        # moves (remove + insert / append of the same child), removals, and insert / append of boxes that already have a size
+        # (encoded once; built with or without the target as parent).  A box that was never encoded has no size yet and is
+        # not part of this stage.
+        def all_sizes(a, acc: list, path: str = '') -> list:
+            for i, ch in enumerate(a.children or []):
+                acc.append((f'{path}/{ch.atom_type}[{i}]', ch.size))
+                all_sizes(ch, acc, f'{path}/{ch.atom_type}[{i}]')
+            return acc
+        nmem = 0
+        for k in range(80 if tier_ == 'quick' else 1200):
+            f = rng.choice([x for x in seg_files if '_enc' not in x.name])
+            data = f.read_bytes()
+            p = Parsed(data)
+            moofs = [b for b in p.top if b.name == 'moof']
+            part = data[:moofs[0].pos] if k % 2 == 0 else data[moofs[0].pos:(moofs[1].pos if len(moofs) > 1 else len(data))]
+            use_lazy = rng.random() < 0.5
+            ops = []
+            try:
+                wrap = load(part, 'rw', use_lazy)
+                for _ in range(rng.randrange(1, 4)):
+                    conts: list = []
+
+                    def rec_c(a) -> None:
+                        if a.children:
+                            conts.append(a)
+                            for ch in a.children:
+                                rec_c(ch)
+                    for ch in wrap.children:
+                        rec_c(ch)
+                    par = rng.choice(conts)
+                    op = rng.choice(['move', 'move', 'append_sized', 'insert_sized', 'remove', 'to_end'])
+                    if op == 'move':
+                        i = rng.randrange(len(par.children))
+                        ch = par.children[i]
+                        par.remove_child(i)
+                        par.insert_child(rng.randrange(len(par.children) + 1), ch)
+                    elif op == 'to_end':
+                        ch = par.children[0]
+                        par.remove_child(0)
+                        par.append_child(ch)
+                    elif op in ('append_sized', 'insert_sized'):
+                        nb = mp4.ContentProtectionSpecificBox(version=0, flags=0, system_id=bytes(16), key_ids=[], data=b'abc')
+                        nb.encode()
+                        if rng.random() < 0.5:
+                            object.__setattr__(nb, 'parent', par)
+                        if op == 'append_sized':
+                            par.append_child(nb)
+                        else:
+                            par.insert_child(rng.randrange(len(par.children) + 1), nb)
+                    elif op == 'remove' and len(par.children) > 1 and par.atom_type in ('moov', 'udta', 'mvex', 'stbl', 'minf', 'dinf'):
+                        cand = [i for i, ch in enumerate(par.children) if ch.atom_type in ('pssh', 'udta', 'mehd', 'free', 'btrt', 'pasp', 'edts')]
+                        if not cand:
+                            continue
+                        par.remove_child(rng.choice(cand))
+                    else:
+                        continue
+                    ops.append(f'{op}@{par.atom_type}')
+                if not ops:
+                    continue
+                before = all_sizes(wrap, [])
+                ob = io.BytesIO()
+                wrap.encode(ob)
+                after = dict(all_sizes(wrap, []))
+                lines.append({'ev': 'memsize', 'file': f.name, 'lazy': use_lazy, 'ops': ops, 'ok': 1,
+                              'pairs': [[sz, after.get(path, -1)] for path, sz in before]})
+            except Exception as err:      # noqa: BLE001
+                lines.append({'ev': 'memsize', 'file': f.name, 'lazy': use_lazy, 'ops': ops, 'ok': 0, 'pairs': [], 'err': f'{type(err).__name__}: {err}'[:160]})
+            nmem += 1
+        out.coverage['structural_edit_size_checks'] = nmem
         # ---- field boundary values ---------------------------------------------------------------------
         def rt_box(box, check) -> int:
             try:
